@@ -51,6 +51,9 @@ func (f *Frame) loopEval(li *loopInfo, st *State, reach string) *EvalCtx {
 				ev.vars["$pos"] = SVal{T: v.T, S: "Int"}
 			} else {
 				ev.vars["$visited"] = SVal{T: v.T, S: v.S}
+				if len(v.Tup) == 1 {
+					ev.vars["$n"] = SVal{T: v.Tup[0].T, S: "Int"}
+				}
 			}
 		}
 	}
@@ -137,6 +140,11 @@ func (f *Frame) enterLoop(li *loopInfo, cur *State, r string) (*State, string) {
 		if v, ok := st.iters[it]; ok {
 			nv := v
 			nv.T = c.fresh("it", v.S)
+			if len(v.Tup) == 1 {
+				cn := c.fresh("itn", "Int")
+				c.assume(rh, "(<= 0 "+cn+")")
+				nv.Tup = []Val{tv(cn, "Int")}
+			}
 			st.iters[it] = nv
 			if v.S == "Int" {
 				// string iterator position stays within the string
@@ -244,6 +252,17 @@ func (f *Frame) closeLoop(li *loopInfo, st *State, cond string) {
 				continue
 			}
 			f.oblige("inv-keep"+inv.Tag()+"/"+f.loopName(li), inv, cond, g)
+		}
+		for _, tr := range li.lc.Transitions {
+			tev := *ev
+			tev.prev = li.hdrState
+			g, err := tev.evalBool(tr.Expr)
+			if err != nil {
+				c.errorf("%s: transition %s: %v", tr.Where, tr.Tag(), err)
+				f.unbound("transition"+tr.Tag()+"/"+f.loopName(li), tr, err)
+				continue
+			}
+			f.oblige("transition"+tr.Tag()+"/"+f.loopName(li), tr, cond, g)
 		}
 		if li.lc.Decreases != nil && len(li.variant0) > 0 {
 			var now []string
